@@ -130,7 +130,8 @@ def proof_stage(prop, plan, tier, registry):
             rep.obligations = os_
             rep.presolved = True
             rep.tasks = {}
-            rep.trusted.add("sympy 1.14 (simplification to zero) for derivative obligations" if "derivative" in os_[0]["name"] else "AST pattern obligations (no solver)")
+            rep.trusted.add("sympy 1.14 (simplification to zero) for derivative obligations" if "derivative" in os_[0]["name"] else
+                            ("assumed ownership contracts of NumPy primitives (which results are views / fresh, which calls write): pyvc/own.py tables" if "#frame:" in os_[0]["name"] else "AST pattern obligations (no solver)"))
             for o in os_:
                 if o["status"] in ("missing", "unsupported"):
                     rep.aborts.append(dict(case="-", reason=o.get("solver_output") or o["status"], line=o.get("line")))
@@ -383,7 +384,7 @@ def run_property(prop, tier, seed):
             "Python/NumPy integers are mathematical integers (no int64 overflow); floats are mathematical reals in proofs",
             "assumed contracts of NumPy/SciPy/numpy_groupies primitives (trusted_base entries 'numpy:*'), validated against the real NumPy on a small scope by setup",
             "python -O is not used (assert-based argument checks are live)",
-        ] + list(plan.get("assumptions", [])),
+        ] + list(plan.get("assumptions", [])) + _assumptions_from(plan),
         wall_s=round(wall, 2), violations=violations,
     )
     os.makedirs(EVID_DIR, exist_ok=True)
@@ -402,6 +403,17 @@ def run_property(prop, tier, seed):
     if undecided:
         return 2
     return 0
+
+
+def _assumptions_from(plan):
+    prov = plan.get("assumptions_from")
+    if not prov:
+        return []
+    mod, fn = prov.rsplit(".", 1)
+    try:
+        return list(getattr(importlib.import_module(mod), fn)())
+    except Exception as e:  # pragma: no cover
+        return [f"(assumption provider {prov} failed: {e})"]
 
 
 def rebaseline(props):
